@@ -79,6 +79,14 @@ func vArbJob(tag string, n int, pipeline string) *PipelineJob {
 	j := &PipelineJob{ID: vID(n), Pipeline: pipeline}
 	c := verifInt64Range(tag+".created", 1, 1<<61)
 	j.Created = verifTime(c)
+	if verifBound("finishedonly", 0) == 1 {
+		// larger populations: every job finished (completed, started); ages and settings stay symbolic
+		j.Completed = true
+		st := verifTime(c)
+		j.Start = &st
+		j.Tasks = jobTasks{{Name: "a", Status: "done"}}
+		return j
+	}
 	j.Completed = verifBool(tag + ".completed")
 	j.Canceled = verifBool(tag + ".canceled")
 	if verifChoose(tag+"?started", 2) == 1 {
